@@ -143,6 +143,27 @@ func (e *Exec) loadIdx(b *Backing, idx *Term) Value {
 	if idx.IsConst() {
 		return e.copyVal(b.cells[idx.c])
 	}
+	if idx.cl {
+		// index is an ite tree over constants: push the load through it
+		if _, ok := b.cells[0].(*Term); ok {
+			okAll := true
+			r := e.ctx.mapLeaves(idx, func(k *Term) *Term {
+				if k.c >= uint64(len(b.cells)) {
+					okAll = false
+					return e.ctx.Const(b.cells[0].(*Term).w, 0)
+				}
+				t, isT := b.cells[k.c].(*Term)
+				if !isT {
+					okAll = false
+					return e.ctx.Const(b.cells[0].(*Term).w, 0)
+				}
+				return t
+			})
+			if okAll {
+				return r
+			}
+		}
+	}
 	n := len(b.cells)
 	if idx.ub < uint64(n-1) {
 		n = int(idx.ub) + 1
